@@ -199,7 +199,7 @@ let err_name = function
   | MissingFilenameForHunk -> "MissingFilenameForHunk" | UnexpectedEndOfLine -> "UnexpectedEndOfLine"
   | UnexpectedEndOfFile -> "UnexpectedEndOfFile" | BadHunkHeader -> "BadHunkHeader"
   | BadLineInHunk -> "BadLineInHunk" | NumberTooBig -> "NumberTooBig" | BadNumber -> "BadNumber"
-  | BadMode -> "BadMode" | BadSequence -> "BadSequence" | BadHash -> "BadHash" | UnsafeFilename -> "UnsafeFilename"
+  | BadMode -> "BadMode" | BadSequence -> "BadSequence" | BadHash -> "BadHash" | UnsafeFilename -> "UnsafeFilename" | EmptyFilename -> "EmptyFilename"
 
 let run_parse () =
   let strip = int () in let wh = int () <> 0 in
@@ -245,7 +245,9 @@ let run_push () =
   let fuzz = int () in
   let backup = (match word () with "A" -> Always | "O" -> OnFail | _ -> Never) in
   let count = (let c = int () in if c < 0 then BAll else BLast (nat_of_int c)) in
-  let dry = int () <> 0 in
+  let dryw = int () in
+  let dry = dryw land 1 <> 0 in
+  let preload = dryw land 2 <> 0 in
   let dm = int () in
   let goal = (match word () with
               | "A" -> GAll
@@ -260,7 +262,7 @@ let run_push () =
   let np = int () in
   let db = times np (fun () -> let n = bytes_of_ints (hexbytes ()) in let d = bytes_of_ints (hexbytes ()) in (n, d)) in
   let cfg = { c_fuzz = nat_of_int fuzz; c_backup = backup; c_backup_count = count; c_dry_run = dry;
-              c_default_mode = n_of_int dm } in
+              c_default_mode = n_of_int dm; c_preload = preload } in
   let fs = { fs_files = files; fs_dirs = dirs; fs_log = [] } in
   let (fs', r) = cmd_push cfg db goal fs in
   let ops = String.concat "," (List.map (fun op ->
